@@ -14,6 +14,7 @@ import (
 	"sort"
 	"strings"
 	"sync"
+	"sync/atomic"
 	"time"
 
 	"github.com/anishathalye/porcupine"
@@ -863,6 +864,9 @@ func main() {
 	nctl := r.N(40000, 1500000)
 	r.CasesProc("ctl", nctl, ev.Opt{Bin: "shim", Procs: 14}, ctlCase)
 	r.CasesProc("bulk/ctl", r.N(6000, 200000), ev.Opt{Bin: "shim", Procs: 14}, func(c *ev.Case) { bulkCase(c, true) })
+	r.CasesProc("big-delete", r.N(600, 12000), ev.Opt{Procs: 8, Workers: 2, AlwaysLog: true}, bigDeleteCase)
+	r.CasesProc("big-delete/race", r.N(150, 3000), ev.Opt{Bin: "race", Procs: 8, Workers: 2, AlwaysLog: true}, bigDeleteCase)
+	r.Require("bigdelete_cases", 500)
 	r.CasesProc("bulk/race", r.N(1500, 30000), ev.Opt{Bin: "race", Procs: 6, AlwaysLog: true}, func(c *ev.Case) { bulkCase(c, false) })
 	nfree := r.N(5000, 100000)
 	r.CasesProc("free/race", nfree, ev.Opt{Bin: "race", Procs: 6, AlwaysLog: true}, freeCase)
@@ -879,4 +883,113 @@ func main() {
 	r.Require("rounds_setnx", 100)
 	r.Require("bulk_snapshots_checked", 10000)
 	r.Finish()
+}
+
+// bigDeleteCase: a map that has held well over a thousand entries is emptied by a few
+// bulk Delete calls while other goroutines keep writing keys that nobody deletes.
+// Conservation oracle (no history search needed): every such key has exactly one
+// writer, so after all goroutines are done it must hold that writer's last value;
+// every deleted key must be gone; Len must be the number of surviving keys. A
+// Delete that copies or rebuilds the map outside the write lock loses or reverts
+// some of those writes.
+func bigDeleteCase(c *ev.Case) {
+	rng := c.Rng
+	K := rng.Pick(1100, 1500, 2100, 4200)
+	kv := mapz.NewSafeKV[int64, int64](0)
+	for k := 0; k < K; k++ {
+		kv.Set(int64(k), 1000)
+	}
+	// the preloaded keys are deleted in 1..4 calls, the first one large
+	perm := rng.Perm(K)
+	cuts := []int{K * rng.Range(70, 95) / 100}
+	for cuts[len(cuts)-1] < K && len(cuts) < 4 {
+		cuts = append(cuts, cuts[len(cuts)-1]+rng.Range(1, K-cuts[len(cuts)-1]))
+	}
+	cuts[len(cuts)-1] = K
+	W := rng.Range(2, 4)
+	per := rng.Range(20, 60)
+	rounds := rng.Range(3, 8)
+	last := make([][]int64, W)
+	var wg sync.WaitGroup
+	var pan atomic.Value
+	guard := func(f func()) {
+		defer wg.Done()
+		defer func() {
+			if p := recover(); p != nil {
+				pan.Store(fmt.Sprint(p))
+			}
+		}()
+		f()
+	}
+	start := make(chan struct{})
+	for t := 0; t < W; t++ {
+		t := t
+		last[t] = make([]int64, per)
+		wg.Add(1)
+		go guard(func() {
+			<-start
+			for r := 1; r <= rounds; r++ {
+				for j := 0; j < per; j++ {
+					key := int64(1_000_000 + t*1000 + j)
+					v := int64(r*100000 + t*1000 + j)
+					kv.Set(key, v)
+					last[t][j] = v
+				}
+			}
+		})
+	}
+	wg.Add(1)
+	go guard(func() {
+		<-start
+		from := 0
+		for _, to := range cuts {
+			ks := make([]int64, 0, to-from)
+			for _, p := range perm[from:to] {
+				ks = append(ks, int64(p))
+			}
+			kv.Delete(ks...)
+			from = to
+		}
+	})
+	close(start)
+	wg.Wait()
+	c.Add("bigdelete_cases", 1)
+	c.Add("bigdelete_keys_deleted", int64(K))
+	c.Add("bigdelete_private_writes", int64(W*per*rounds))
+	if p := pan.Load(); p != nil {
+		c.Failf("panic/big-delete", "a SafeKV call panicked while %d keys were deleted in %d calls next to %d writers: %v", K, len(cuts), W, p)
+		return
+	}
+	var got map[int64]int64
+	var ln int
+	if !c.Guard("Range/Len", func() {
+		got = map[int64]int64{}
+		kv.Range(func(k, v int64) bool { got[k] = v; return true })
+		ln = kv.Len()
+	}) {
+		return
+	}
+	for t := 0; t < W; t++ {
+		for j := 0; j < per; j++ {
+			key := int64(1_000_000 + t*1000 + j)
+			if v, ok := got[key]; !ok || v != last[t][j] {
+				c.Failf("lost-update", "key %d is written only by goroutine %d, whose last Set stored %d; after all goroutines finished the map has (%d,%v). %d preloaded keys were deleted by %d Delete calls (sizes up to %d) meanwhile", key, t, last[t][j], v, ok, K, len(cuts), cuts[0])
+				return
+			}
+		}
+	}
+	for k := 0; k < K; k++ {
+		if _, ok := got[int64(k)]; ok {
+			c.Failf("delete-undone", "key %d was passed to a Delete call that returned, nobody wrote it afterwards, and it is still in the map", k)
+			return
+		}
+	}
+	if ln != W*per || len(got) != W*per {
+		c.Failf("len", "Len()=%d, Range yields %d keys, %d keys were written and never deleted", ln, len(got), W*per)
+		return
+	}
+	c.Distinct(ev.Mix(uint64(K), uint64(W), uint64(per), uint64(rounds), uint64(cuts[0])))
+	if c.WantSample() {
+		c.Sample(fmt.Sprintf("big-delete: %d preloaded keys deleted by %d Delete calls (first %d keys) next to %d writers x %d private keys x %d rounds; every private key ended with its writer's last value", K, len(cuts), cuts[0], W, per, rounds))
+	}
 }
